@@ -277,6 +277,19 @@ pub fn run(ctx: &Ctx) -> i32 {
             }
         }
     });
+    // LIMIT statements through every driver
+    {
+        let defs = format!("{}\n{}", JDEF, JDEF_U);
+        let jl = jlines();
+        let input: Vec<String> = [0usize, 1, 5, 2, 3, 4, 0].iter().map(|i| jl[*i].to_string()).collect();
+        let mut cases: Vec<(String, String, Vec<String>, bool)> = Vec::new();
+        for (i, (text, _)) in w.stmts.iter().enumerate() {
+            for n in [0usize, 1, 2, 5] {
+                cases.push((defs.clone(), format!("{} LIMIT {}", text, n), input.clone(), (i + n) % 3 == 0));
+            }
+        }
+        crate::drivers::run_layer(&col, &cases, &|_| "limit".to_string());
+    }
     huge_limit_layer(&w, &col);
     col.layer("limit x files", done, complete, json!({"statements": nst, "line_sequences": nseq, "max_len": maxlen, "max_files": 3}));
     // an aggregate result requested again from the same engine (update-only lines, result, more lines, result) keeps the first n groups
